@@ -157,7 +157,37 @@ def tiling(ctx, process_q, rule, want_etypes):
             ratio = ev.ev(rexp) if rexp is not None else Poly.const(1)
         except Undecided as e:
             raise AnalysisError(f"{process_q}: ratio not evaluable: {e}")
-        fi2, cases = np2.ind2save_cases(repo, env, facts, ratio, etype)
+        # further parameters of _ind2save (beyond the window generator, ratio, stream) take the value the call site passes, when it is a constant there
+        env_c = env
+        try:
+            fi_probe = repo.fn(CLS + "._ind2save")
+            extra = [p_ for p_ in fi_probe.params if p_ not in ("self", "chunk", "chunk_sync", "wg", "ratio", "etype")]
+        except Exception:
+            extra = []
+        if extra:
+            from sa.algebra import SymExec
+            lp_ = next((n for n in walk_function(pfi.node) if isinstance(n, ast.For) and any(x is c for x in ast.walk(n))), None)
+            ev_c = Evaluator(env=dict(env), facts=facts.copy(), resolve=lambda e: repo.resolve_expr(pfi, e))
+            sx_c = SymExec(ev_c, on_undecided="havoc")
+            for st_ in (lp_.body if lp_ is not None else []):
+                if any(x is c for x in ast.walk(st_)):
+                    break
+                if isinstance(st_, ast.Assign):
+                    try:
+                        sx_c.step(st_)
+                    except Undecided:
+                        pass
+            for p_ in extra:
+                a_ = b.bound.get(p_)
+                if a_ is None:
+                    continue
+                try:
+                    v_ = ev_c.ev(a_)
+                except Undecided:
+                    continue
+                if v_.const_value() is not None:
+                    env_c = dict(env_c, **{p_: v_})
+        fi2, cases = np2.ind2save_cases(repo, env_c, facts, ratio, etype)
         ai, bi = cases["interior"]
         # decimation actually applied to the chunk handed to _ind2save (provenance of its first argument)
         dec = Poly.const(1)
@@ -254,6 +284,30 @@ def d2_tiling(ctx):
     reads = [s for s in find(loops[0], ast.Subscript) if loc_name(s.value) == "self.sr"]
     bad = [s for s in reads if not (isinstance(s.slice, ast.Tuple) and isinstance(s.slice.elts[0], ast.Slice)
                                     and [loc_name(s.slice.elts[0].lower), loc_name(s.slice.elts[0].upper)] == tn and s.slice.elts[0].step is None)]
+    if bad:
+        # bounds written as expressions (first - lead + offset ..): compared as normal forms after running the statements of the loop body that precede the read
+        from sa.algebra import SymExec
+        still = []
+        for s_ in bad:
+            ok_ = False
+            if isinstance(s_.slice, ast.Tuple) and isinstance(s_.slice.elts[0], ast.Slice) and s_.slice.elts[0].step is None and s_.slice.elts[0].lower is not None and s_.slice.elts[0].upper is not None:
+                ev_ = Evaluator(env={tn[0]: Poly.sym(tn[0]), tn[1]: Poly.sym(tn[1])}, facts=Facts(), resolve=lambda e: repo.resolve_expr(pfi, e))
+                sx_ = SymExec(ev_, on_undecided="havoc")
+                for st_ in loops[0].body:
+                    if any(x is s_ for x in ast.walk(st_)):
+                        break
+                    if isinstance(st_, ast.Assign):
+                        try:
+                            sx_.step(st_)
+                        except Undecided:
+                            pass
+                try:
+                    ok_ = ev_.ev(s_.slice.elts[0].lower) == Poly.sym(tn[0]) and ev_.ev(s_.slice.elts[0].upper) == Poly.sym(tn[1])
+                except Undecided:
+                    ok_ = False
+            if not ok_:
+                still.append(s_)
+        bad = still
     ctx.check(bool(reads) and not bad, pfi, loops[0], f"{len(reads)} reads self.sr[first:last, ...]", "each window is read at the generator's bounds",
               f"`{src(bad[0]) if bad else ''}` does not read rows first:last", key="rows")
 
